@@ -1026,6 +1026,11 @@ impl<'a> Walker<'a> {
                 let p = self.ev(ev, vec![], m, line);
                 out.push(Sk::If { cond: Cond::Nondet, then: vec![p], els: vec![], line });
             }
+            "debug_assert" | "debug_assert_eq" | "debug_assert_ne" if self.cfg.forbid_panic.contains(&self.f.key) => {
+                // in a function that must not panic a debug assertion is a panic site of debug builds
+                let p = self.ev("ev_forbidden_panic", vec![], m, line);
+                out.push(Sk::If { cond: Cond::Nondet, then: vec![p], els: vec![], line });
+            }
             "debug_assert" | "debug_assert_eq" | "debug_assert_ne" | "cfg" | "write" | "writeln" | "format" | "println" | "eprintln" | "matches" => {}
             "treenode" | "load_factor" | "vec" => {
                 if let Ok(args) = m.parse_body_with(syn::punctuated::Punctuated::<syn::Expr, syn::Token![,]>::parse_terminated) {
@@ -1275,7 +1280,9 @@ impl<'a> Walker<'a> {
                 }
                 // lock validation: `if <re-read of the bin> != bin { continue | return }` under a held lock
                 let is_validation = !self.locks.is_empty() && i.else_branch.is_none() && self.is_reread_cmp(&i.cond) && {
-                    matches!(i.then_branch.stmts.as_slice(), [syn::Stmt::Expr(syn::Expr::Continue(_), _)] | [syn::Stmt::Expr(syn::Expr::Return(_), _)])
+                    // the branch leaves the critical attempt: its last statement is `continue` or `return` (whatever it does before,
+                    // e.g. bookkeeping, is walked like any other code)
+                    matches!(i.then_branch.stmts.last(), Some(syn::Stmt::Expr(syn::Expr::Continue(_), _)) | Some(syn::Stmt::Expr(syn::Expr::Return(_), _)))
                 };
                 out.push(Sk::If { cond: c, then: th, els: el, line });
                 if is_validation {
@@ -1382,6 +1389,15 @@ impl<'a> Walker<'a> {
                     line,
                 };
                 pre.push(brk);
+                // a loop whose continuation condition re-reads a shared field of the map (`self.<field>.load(..)`) goes round until
+                // another thread changes that field: every further round is a wait (spin-wait), like park / yield_now / spin_loop
+                {
+                    let ct = toks(&*w.cond).replace(' ', "");
+                    if ct.contains("self.") && ct.contains(".load(") {
+                        let ev = self.ev("ev_wait", vec![], &*w.cond, line);
+                        pre.push(ev);
+                    }
+                }
                 self.loop_(&w.body, w.label.as_ref().map(|l| l.name.ident.to_string()), Some(pre), None, line, out);
                 self.scopes.pop();
                 None
